@@ -471,11 +471,18 @@ Proof.
   cbv zeta in R1. rewrite canon0_rows in R3.
   assert (R1' : model_revcomp complements 0 rows = Ok (map spec_revcomp rows)).
   { rewrite R1. f_equal. apply map_ext. intros r. f_equal. rewrite <- (map_id r) at 2. apply map_ext. intros c. reflexivity. }
+  assert (R5 : model_revcomp complements 0 (rev rows) = Ok (map spec_revcomp (rev rows))).
+  { destruct (revcomp_all complements domain grid_head 0 (rev rows) (or_introl eq_refl) (Forall_rev Hrows)) as [R _].
+    cbv zeta in R. rewrite R. f_equal. apply map_ext. intros r. f_equal. rewrite <- (map_id r) at 2. apply map_ext. intros c. reflexivity. }
+  assert (W6 : tr_wellformed (rev rows) = true).
+  { unfold tr_wellformed in *. rewrite forallb_forall in *. intros r0 Hr0. apply W1. apply in_rev. exact Hr0. }
   cbn [model_ok prop_ok] in *. eapply all_true_impl; [|exact Hm].
   intros [k o] H. cbn [fst snd] in *. unfold seq_model, seq_spec in *.
   destruct (k =? 0); [exact H|]. destruct (k =? 1); [rewrite (translate_wellformed rows W1) in H; exact H|].
   destruct (k =? 2); [rewrite R1' in H; exact H|].
   destruct (k =? 3); [rewrite R1', (translate_wellformed _ W2) in H; exact H|].
+  destruct (k =? 5); [rewrite R5 in H; exact H|].
+  destruct (k =? 6); [rewrite (translate_wellformed _ W6) in H; exact H|].
   rewrite R3 in H. exact H.
 Qed.
 
